@@ -955,14 +955,20 @@ class ModelFeatures:
             self.absorption == other.absorption
             and self.elimination == other.elimination
             and transits
-            and self.peripherals == other.peripherals
+            and self._extract_peripherals() == other._extract_peripherals()
             and self.lagtime == other.lagtime
             and self._eq_covariate(other)
             and self.direct_effect == other.direct_effect
             and self.effect_comp == other.effect_comp
-            and self.indirect_effect == other.indirect_effect
+            and self._eq_indirect_effect(other)
             and self.metabolite == other.metabolite
         )
+
+    def _eq_indirect_effect(self, other):
+        lhs, rhs, _ = _add_helper(
+            self.indirect_effect, other.indirect_effect, "modes", "production"
+        )
+        return not lhs and not rhs
 
     def _eq_transits(self, other):
         # TODO : Use add helper and check all in "combined"
